@@ -70,6 +70,9 @@ class _FragGen:
             # numpy scalars are constants as well
             if self.kind == "int":
                 return ["np", "int64", repr(r.choice([1, 2, 3, 6, -2]))]
+            if r.random() < 0.4:
+                # single / half precision scalars, powers of two only (exact in any precision)
+                return ["np", r.choice(["float32", "float16"]), repr(r.choice([2.0, 0.5, 4.0]))]
             return ["np", "float64", repr(r.choice([0.5, 1.5, 2.0, -0.75, 3.25]))]
         if self.kind == "int":
             return ["i", r.choice([0, 1, 2, 3, 4, 5, 7, 9, -1, -2, -3])]
@@ -77,6 +80,8 @@ class _FragGen:
             # integer variables with float constants: every float constant is dyadic and every
             # division is by a power of two, so all arithmetic is exact in binary floating
             # point and C's promotion rules are the only thing that matters
+            if r.random() < 0.08:
+                return ["np", r.choice(["float32", "float64"]), repr(r.choice([2.0, 0.5, 4.0]))]
             if r.random() < 0.5:
                 return ["i", r.choice([0, 1, 2, 3, 4, 5, -1, -2])]
             return ["f", repr(r.choice([0.5, 1.0, 1.5, 2.0, 4.0, -1.0, 0.25, 3.0]))]
@@ -185,7 +190,11 @@ class _FragGen:
                 num = ["n", "Sum", [["t", [e(d + 1), ["f", r.choice(["0.5", "1.0"])]]]]]
             return ["n", "Quotient", [num, ["i", r.choice([2, 4, 8])]]]
         if o == "quotp2":
-            return ["n", "Quotient", [e(d + 1), ["f", repr(r.choice([2.0, 4.0, 0.5, 0.25]))]]]
+            den = ["f", repr(r.choice([2.0, 4.0, 0.5, 0.25]))]
+            if r.random() < 0.2:
+                den = ["np", r.choice(["float32", "float16", "float64"]),
+                       repr(r.choice([2.0, 4.0, 0.5]))]
+            return ["n", "Quotient", [e(d + 1), den]]
         if o in ("fdiv", "rem") and k == "mixed":
             # // and % are for integer operands only: generate them in the integer sub-grammar
             self.kind = "int"
@@ -276,6 +285,12 @@ def generate(seed, tier):
             t = g.wrap(t)
         ops.append(["def", f"e{k}", t])
         pool.append(f"e{k}")
+    for k in range(min(2, npool)):
+        # unequal twins with an equal hash (-1 <-> -2) -- also as wrapped children
+        tw = spec.collide_variant(r, ops[k][2], allowed=[])
+        if tw is not None and r.random() < 0.5:
+            ops.append(["def", f"e{len(pool)}", tw])
+            pool.append(f"e{len(pool)}")
     if kind == "mixed":
         # typed twins: the same tree with one constant as int resp. float (i + 1 vs i + 1.0)
         for k in range(min(2, npool)):
